@@ -42,7 +42,7 @@ func init() {
 		Rule: "each case: one GoChannel, Router, cqrs.CommandProcessor with a requestreply handler and a PubSubBackend whose reply topic is shared by all requests; 1..32 concurrent SendWithReplies / SendWithReply calls; " +
 			"handler outcomes per command {result, error, error k times then success (k+1 replies when AckCommandErrors=false)}; AckCommandErrors on/off; optional ListenForReplyTimeout; caller behaviours {drain then cancel, read one and cancel late, never read then cancel, cancel right away}; yield injection at the listener/router/gochannel hook points. " +
 			"Oracle: every reply a caller receives carries its own command id (result id or error text), draining callers get all their replies; the command message is unsettled when its reply is published and afterwards settled as AckCommandErrors says; " +
-			"after cancel / the known timeout and at quiescence OnListenForReplyFinished ran exactly once per request and no listener goroutine remains - checked before the harness touches the reply channel of callers that stopped reading - and then the reply channel is observed closed. " +
+			"after cancel (or, when ListenForReplyTimeout is configured, after the time-out alone: callers that stopped reading then never call cancel) and at quiescence OnListenForReplyFinished ran exactly once per request and no listener goroutine remains - checked before the harness touches the reply channel of callers that stopped reading - and then the reply channel is observed closed. " +
 			"Non-trivial: >=2 concurrent requests shared the reply topic, or a caller stopped reading with replies pending. Distinct = (program shape, hook fingerprint).",
 		Assumptions: []string{
 			"replies after cancel/timeout may be ReplyTimeoutError values; they are not attributed to a command",
@@ -64,6 +64,7 @@ type caller struct {
 	sendErr   string
 	ch        <-chan requestreply.Reply[Res]
 	cancel    func()
+	cancelCtx func()
 	done      chan struct{}
 }
 
@@ -89,9 +90,10 @@ func run(e *vlib.Env) vlib.Result {
 	logger := watermill.NopLogger{}
 	ps := gochannel.NewGoChannel(gochannel.Config{}, logger)
 	var mu sync.Mutex
-	finished := map[string]int{}             // command id -> OnListenForReplyFinished calls
-	cmdMsgs := map[string]*message.Message{} // operation id -> consumed command message
-	cmdOf := map[string]string{}             // operation id -> command id
+	finished := map[string]int{}                 // command id -> OnListenForReplyFinished calls
+	cmdMsgs := map[string]*message.Message{}     // operation id -> consumed command message (last delivery)
+	cmdCopies := map[string][]*message.Message{} // operation id -> every delivered copy of the command
+	cmdOf := map[string]string{}                 // operation id -> command id
 	var settledEarly []string
 	handlerCalls := map[string]int{}
 	var events atomic.Int64
@@ -121,6 +123,7 @@ func run(e *vlib.Env) vlib.Result {
 		ModifyNotificationMessage: func(msg *message.Message, p requestreply.PubSubBackendOnCommandProcessedParams) error {
 			mu.Lock()
 			cmdMsgs[string(p.OperationID)] = p.CommandMessage
+			cmdCopies[string(p.OperationID)] = append(cmdCopies[string(p.OperationID)], p.CommandMessage)
 			if c, ok := p.Command.(*Cmd); ok {
 				cmdOf[string(p.OperationID)] = c.ID
 			}
@@ -242,8 +245,10 @@ func run(e *vlib.Env) vlib.Result {
 	for _, c := range callers {
 		go func(c *caller) {
 			defer close(c.done)
+			// the caller's own context is never cancelled before the judgement: a caller that stopped reading and relies on
+			// ListenForReplyTimeout does nothing at all any more (the context is released at teardown)
 			ctx, cancelCtx := context.WithCancel(context.Background())
-			defer cancelCtx()
+			c.cancelCtx = cancelCtx
 			cmd := &Cmd{ID: c.id, Fails: c.fails}
 			if c.behaviour == "single" {
 				rep, err := requestreply.SendWithReply[Res](ctx, bus, backend, cmd)
@@ -281,10 +286,14 @@ func run(e *vlib.Env) vlib.Result {
 					classify(c, rep)
 				}
 				<-lateCancel
-				cancel()
+				if !useTimeout { // with ListenForReplyTimeout the caller relies on the time-out: the listener must finish by itself
+					cancel()
+				}
 			case "never-read":
 				<-lateCancel
-				cancel()
+				if !useTimeout {
+					cancel()
+				}
 			case "cancel-now":
 				cancel()
 				for rep := range ch {
@@ -367,6 +376,17 @@ func run(e *vlib.Env) vlib.Result {
 			st := vlib.Settled(cm)
 			events.Add(1)
 			// cmdMsgs keeps the last delivered copy of the command: its outcome decides the expected settlement
+			if ackErrors {
+				// handler errors are acked: no redelivery, so exactly one handler call and no nacked delivery
+				if handlerCalls[c] != 1 {
+					res.Fail("command-settlement", "command %s: AckCommandErrors=true but the handler ran %d times (the command was redelivered); %s", c, handlerCalls[c], spec)
+				}
+				for i, cp := range cmdCopies[op] {
+					if s := vlib.Settled(cp); s != "ack" {
+						res.Fail("command-settlement", "command %s: AckCommandErrors=true but delivery #%d of the command is %q; %s", c, i+1, s, spec)
+					}
+				}
+			}
 			wantAck := ackErrors || handlerCalls[c] > cl.fails
 			if wantAck && st != "ack" {
 				res.Fail("command-settlement", "command %s: last delivery is %q, want ack (AckCommandErrors=%v, handler calls %d, fails %d); %s", c, st, ackErrors, handlerCalls[c], cl.fails, spec)
@@ -406,6 +426,9 @@ func run(e *vlib.Env) vlib.Result {
 	for _, c := range callers {
 		if c.cancel != nil {
 			c.cancel()
+		}
+		if c.cancelCtx != nil {
+			c.cancelCtx()
 		}
 	}
 	cd := make(chan struct{})
